@@ -290,7 +290,9 @@ package keeper
 //@   ensures err != nil ==> kvUnchanged()
 //@   ensures err == nil ==> msg.Authority == k.authority && storedDistParamsOK(k.Keeper)
 //@   ensures kvOnlyChanged(storeOf(k.storeKey), dpKey())
-//@   prop C13 C20x
+//@   // the stored parameters were validated (C13): no share entry is nil
+//@   panic_requires forall i: int, j: int :: {$distParams.SubDistributors[i].Destinations.Shares[j]} 0 <= i && i < len($distParams.SubDistributors) && 0 <= j && j < len($distParams.SubDistributors[i].Destinations.Shares) ==> $distParams.SubDistributors[i].Destinations.Shares[j] != nil
+//@   prop C13 C20
 //@ loop msgServer.UpdateSubDistributorDestinationShareParam#1
 //@   invariant kvUnchanged()
 //@ loop msgServer.UpdateSubDistributorDestinationShareParam#2
